@@ -90,7 +90,8 @@ func main() {
 	checkManyKeys()
 	checkMaps()
 	checkBigMaps()
-	e.Finish(fmt.Sprintf("every slice over {0,1,2} of length <= %d (nil and empty separately), position-tagged where order matters; callbacks: non-commutative accumulators, all 8 predicates, all 27 keyers, two equality relations, MapErr failing at every position, every exclude slice of length <= 2, every unwanted subset, every index -1..len; every partial map {0,1,2}->{0,1}; inputs snapshotted before and compared after each call, results scribbled to show detachment; non-trivial = length >= 2", maxLen))
+	allTypedHelpers()
+	e.Finish(fmt.Sprintf("every slice over {0,1,2} of length <= %d (nil and empty separately), position-tagged where order matters; callbacks: non-commutative accumulators, all 8 predicates, all 27 keyers, two equality relations, MapErr failing at every position, every exclude slice of length <= 2, every unwanted subset, every index -1..len; every partial map {0,1,2}->{0,1}; inputs snapshotted before and compared after each call, results scribbled to show detachment; results of earlier calls re-examined after later calls; the ==-based helpers (Index, Contains, Except, ExceptSet, Trim, Distinct, GroupBy, CountBy, HasKey, KeyOf, ContainsValue) over 8 element types whose values have several ==-equal spellings, every sequence up to length 4; non-trivial = length >= 2", maxLen))
 }
 
 func tagged(s []int) []E {
